@@ -27,7 +27,7 @@ CFG = {'assumptions': ['iterator semantics: Next moves to the successor, in the 
 META = {'design_ref': 'DESIGN.md section 3, C19',
  'note': 'Trusted: the Go map model and the invariant walker in harness/c19; the successor semantics of live iterators stated in DESIGN.md.',
  'technique': 'runtime monitoring: lock-step reference model (set) + invariant hook walk after every operation; Count-hook coverage',
- 'text': 'Lock-step set model plus structural invariant walker over every operation of ~7.7k (quick) / ~450k (thorough) random histories and the '
+ 'text': 'Lock-step set model plus structural invariant walker over every operation of ~38k (quick) / ~550k (thorough) random histories (incl. snapshot iterators: SafeIterator / SafeIteratorFrom under mutation of the tree) and the '
          'exhaustive enumeration of all short histories over a 4-key universe with a live iterator; held on the histories executed, which the '
          'evidence lists by operation, rotation/delete case (Count hook) and distinct tree shapes. Not a proof: longer histories and larger trees '
          'are sampled only.'}
